@@ -40,4 +40,11 @@ Definition judge_with (pick : potr -> bool) (c : pcase) : verdict :=
   let x := pfinal (pw0 (pc_clock c) (pc_cfgs c)) (pc_ops c) in
   let '(t, shape) := judge_pool (pc_clock c) (pc_cfgs c) (pc_ops c) (pc_impl c) in
   {| v_corr := list_eqb pobs_eqb m (pc_impl c); v_prop := pick t && shape;
-     v_tags := map defect_name (pw_defects x) ++ pool_tags m; v_note := "" |}.
+     v_tags := map defect_name (pw_defects x) ++ pool_tags m; v_note := diff_note pobs_eqb m (pc_impl c) |}.
+
+(** the oracle on the model's own run (used to search and shrink witnesses without the harness) *)
+Definition judge_self (pick : potr -> bool) (c : pcase) : verdict :=
+  let m := model_obs c in
+  let x := pfinal (pw0 (pc_clock c) (pc_cfgs c)) (pc_ops c) in
+  let '(t, shape) := judge_pool (pc_clock c) (pc_cfgs c) (pc_ops c) m in
+  {| v_corr := true; v_prop := pick t && shape; v_tags := map defect_name (pw_defects x) ++ pool_tags m; v_note := "" |}.
